@@ -427,7 +427,14 @@ pub fn render_response(r: &RespSpec, rng: &mut StdRng) -> (Vec<u8>, Vec<(usize, 
     }
     match r.framing {
         "cl" => b.extend(format!("Content-Length: {}\r\n", r.body.len()).as_bytes()),
-        "chunked" => b.extend(b"Transfer-Encoding: chunked\r\n"),
+        // (a coding list ending in chunked is the chunked framing as well)
+        "chunked" => {
+            if r.body.len() % 5 == 2 {
+                // a length left behind by whoever produced the body before an intermediary re-framed it: the chunked coding decides
+                b.extend(b"Content-Length: 3\r\n");
+            }
+            b.extend(if r.body.len() % 3 == 1 { &b"Transfer-Encoding: gzip, chunked\r\n"[..] } else { &b"Transfer-Encoding: chunked\r\n"[..] })
+        }
         _ => {}
     }
     if r.conn_close {
